@@ -482,7 +482,18 @@ Definition assoc_paths (m : cidrmap) (name : str) : list path :=
                      end)
            (sort_by str_ltb (map fst m)).
 
-Fixpoint release_all (m : cidrmap) (node : nodeobj) (ps : list path) : cidrmap * res unit :=
+(* ---------- service ranges (694-727), with the nil-pool guard (repair of D3') ---------- *)
+Definition occupy_service (c : ccset) (svc : cidr) : ccset :=
+  match pool_of c (cf svc) with
+  | None => c
+  | Some p => if overlapb (grange (pg p)) svc then match cc_occupy c svc with Ok c' => c' | _ => c end else c
+  end.
+
+(* after the release of a node's pod CIDRs from an entry, the service ranges are occupied in it again: a released pod
+   CIDR may have covered part of a service range (repair 0b88a57) *)
+Definition occupy_services (c : ccset) (svcs : list cidr) : ccset := fold_left occupy_service svcs c.
+
+Fixpoint release_all (svcs : list cidr) (m : cidrmap) (node : nodeobj) (ps : list path) : cidrmap * res unit :=
   match ps with
   | [] => (m, Ok tt)
   | p :: ps' =>
@@ -490,29 +501,29 @@ Fixpoint release_all (m : cidrmap) (node : nodeobj) (ps : list path) : cidrmap *
       | None => (m, Panic)
       | Some c =>
           match release_pcidrs c (n_cidrs node) with
-          | (c', Ok _) => release_all (set_entry m p (del_assoc (n_name node) c')) node ps'
+          | (c', Ok _) => release_all svcs (set_entry m p (del_assoc (n_name node) (occupy_services c' svcs))) node ps'
           | (c', e) => (set_entry m p c', e)
           end
       end
   end.
 
-Definition release_cidr (m : cidrmap) (node : nodeobj) : cidrmap * res unit :=
+Definition release_cidr (svcs : list cidr) (m : cidrmap) (node : nodeobj) : cidrmap * res unit :=
   match n_cidrs node with
   | [] => (m, Ok tt)
   | _ =>
       match assoc_paths m (n_name node) with
       | [] => (m, Err ENoAssoc)
-      | ps => release_all m node ps
+      | ps => release_all svcs m node ps
       end
   end.
 
 (* ---------- syncNode (468-490): cached = what nodeLister.Get returned to syncNode ---------- *)
-Definition sync_node (po : parse_oracle) (lab : label_oracle) (canp apisame : list cidr -> bool) (held : list cidr) (m : cidrmap) (cached : option nodeobj)
+Definition sync_node (po : parse_oracle) (lab : label_oracle) (svcs : list cidr) (canp apisame : list cidr -> bool) (held : list cidr) (m : cidrmap) (cached : option nodeobj)
            (reread : option nodeobj) (outs : list patch_outcome) : cidrmap * res unit * list effect :=
   match cached with
   | None => (m, Ok tt, [])
   | Some node =>
-      if n_deleting node then let '(m', r) := release_cidr m node in (m', r, [])
+      if n_deleting node then let '(m', r) := release_cidr svcs m node in (m', r, [])
       else allocate_or_occupy po lab canp apisame held m node reread outs
   end.
 
@@ -669,13 +680,7 @@ Definition sync_cc (m : cidrmap) (key : str) (cached : option ccobj) (out : upd_
   | Some o => if o_deleting o then reconcile_delete m o out else reconcile_create m o out
   end.
 
-(* ---------- service ranges (694-727), with the nil-pool guard (repair of D3') ---------- *)
-Definition occupy_service (c : ccset) (svc : cidr) : ccset :=
-  match pool_of c (cf svc) with
-  | None => c
-  | Some p => if overlapb (grange (pg p)) svc then match cc_occupy c svc with Ok c' => c' | _ => c end else c
-  end.
-
+(* ---------- service ranges (694-727): [occupy_service] is defined before [release_all] ---------- *)
 Definition filter_service (m : cidrmap) (svc : cidr) : cidrmap :=
   map (fun kl => (fst kl, map (fun c => occupy_service c svc) (snd kl))) m.
 
